@@ -34,7 +34,7 @@ def gen_case(rng: random.Random, tier):
         bytecode['endian'] = rng.choice(['big', 'little'])
     suffix = None
     if rng.random() < (0.3 if nops > 0 else 0.6):
-        sn = rng.choice([1, 2, 3, 4, 8])
+        sn = rng.choice([1, 2, 3, 4, 8, 9, 12, 16, 16])      # wider than a byte: the suffix has the byte order of its opcode
         suffix = {'value': rng.randint(0, (1 << sn) - 1), 'size': sn}
         bytecode['suffix'] = suffix
     instr = {'bytecode': bytecode}
